@@ -47,6 +47,13 @@ type LV struct {
 	Typ           types.Type
 	Path          []Sel // place of the array inside the cell (slices of arrays); nil for plain backing stores
 	Frozen        *State // contracts only: old(s) reads its backing store in this state
+	Abs           *Term  // strings only: the string as one abstract value of sort Str, when known
+}
+
+// TXV: contents of a bytes.Buffer used as a text builder, as one abstract string.
+type TXV struct {
+	T   *Term
+	Typ types.Type
 }
 
 type Sel struct {
@@ -602,7 +609,11 @@ func (c *FCtx) valIte(cond *Term, a, b Val) (Val, bool) {
 		if !ok || x.Cell != y.Cell || !samePath(x.Path, y.Path) {
 			return nil, false
 		}
-		return LV{Path: x.Path, Cell: x.Cell, Off: Ite(cond, x.Off, y.Off), Len: Ite(cond, x.Len, y.Len), Cap: Ite(cond, x.Cap, y.Cap), Elem: x.Elem, IsNil: Ite(cond, x.IsNil, y.IsNil), Str: x.Str, Typ: x.Typ}, true
+		var abs *Term
+		if x.Abs != nil && y.Abs != nil {
+			abs = Ite(cond, x.Abs, y.Abs)
+		}
+		return LV{Path: x.Path, Cell: x.Cell, Off: Ite(cond, x.Off, y.Off), Len: Ite(cond, x.Len, y.Len), Cap: Ite(cond, x.Cap, y.Cap), Elem: x.Elem, IsNil: Ite(cond, x.IsNil, y.IsNil), Str: x.Str, Typ: x.Typ, Abs: abs}, true
 	case PV:
 		y, ok := b.(PV)
 		if ok && x.IsNil.IsTrue() && !y.IsNil.IsTrue() {
@@ -631,6 +642,12 @@ func (c *FCtx) valIte(cond *Term, a, b Val) (Val, bool) {
 			return nil, false
 		}
 		return FV{Ite(cond, x.Present, y.Present), Ite(cond, x.Value, y.Value), x.Typ}, true
+	case TXV:
+		y, ok := b.(TXV)
+		if !ok {
+			return nil, false
+		}
+		return TXV{Ite(cond, x.T, y.T), x.Typ}, true
 	case XV:
 		y, ok := b.(XV)
 		if !ok || x.Kind != y.Kind {
@@ -683,6 +700,9 @@ func sameVal(a, b Val) bool {
 	case XV:
 		y, ok := b.(XV)
 		return ok && x.Kind == y.Kind && x.Arr == y.Arr && x.Len == y.Len && x.RPos == y.RPos
+	case TXV:
+		y, ok := b.(TXV)
+		return ok && x.T == y.T
 	}
 	return false
 }
